@@ -80,6 +80,9 @@ def seq_apply(state: Dict[int, int], op: Tuple) -> Tuple[Dict[int, int], Any]:
         return s, len(s)
     if kind == 'clear':
         return {}, None
+    if kind == 'remove_any':        # one step of clear(): whatever k holds at that moment is removed
+        s.pop(k, None)
+        return s, ANY
     if kind == 'remove_if':         # one step of retain: remove k only while it still holds the value the predicate inspected
         if s.get(k) == op[2]:
             del s[k]
@@ -260,6 +263,13 @@ class ConcRunner:
                                     kept.add(nv.id)
                             else:
                                 rec['result'] = (seen[0], nv.id if nv else None)
+                        elif kind in ('iter', 'keys', 'len'):
+                            # read-only traversal / size query (not linearized: weakly consistent by contract); as a reader thread
+                            # (ConcScenario.readers) it must never block or spin
+                            if kind == 'len':
+                                dt.len()
+                            else:
+                                dt.iter_all(kind)
                         elif kind == 'retain_none':
                             # retain with a predicate that rejects everything and records what it was shown.  It is not one atomic
                             # operation; its oracle is evaluated after the run (see `retain_seen` below)
@@ -284,6 +294,14 @@ class ConcRunner:
                             dt.reserve(k)
                             rec['op'] = None
                         rec['res_step'] = sched.step
+                    # references this thread obtained from lookups stay valid until it releases its guard - also when it is
+                    # descheduled right here while the other threads finish (and release theirs)
+                    got = [h['result'] for h in hist if h['thread'] == ti and h['op'] and h['op'][0] == 'get' and h['result'] is not None]
+                    if got:
+                        itp.env.sp(itp, 'release of the guard (references from lookups still held)')
+                        for vid in got:
+                            if L.dropped.get(vid):
+                                raise Violation('dropped-under-guard', 'T%d: the value #%s returned by its lookup was dropped while the guard under which it was obtained is still live' % (ti + 1, vid))
                     dt.unpin()
                 if ti in sc.readers:
                     sched.readers.add(ti + 1)
@@ -329,9 +347,23 @@ class ConcRunner:
             # retain is not one atomic operation: per inspected entry it is a conditional removal `remove_if(k, inspected value)`
             # somewhere inside retain's interval.  Entries nobody else touches are applied up front (order-independent)
             lin_init = dict(init)
+            # clear() is not one atomic operation either (like the JDK's): it empties bin after bin and re-reads a bin it has just
+            # emptied, so an entry inserted meanwhile may be removed as well or survive.  Per key that another operation touches it is
+            # modelled as two unconditional removals inside clear's interval; untouched keys are simply gone.
+            clears = [h for h in ops if h['op'][0] == 'clear']
+            if clears:
+                ops = [h for h in ops if h['op'][0] != 'clear']
+                touched_keys = {o['op'][1] for o in ops if len(o['op']) > 1}
+                for k0 in list(lin_init):
+                    if k0 not in touched_keys:
+                        del lin_init[k0]
+                for h in clears:
+                    for k0 in sorted(touched_keys):
+                        for _rep in range(2):
+                            ops.append({'thread': h['thread'], 'op': ('remove_any', k0), 'result': ANY, 'inv_step': h['inv_step'], 'res_step': h['res_step']})
             for h in hist:
                 for (rk, rv) in h.get('retain_seen', []):
-                    touched = any(o['op'][0] == 'clear' or (len(o['op']) > 1 and o['op'][1] == rk) for o in ops)
+                    touched = bool(clears) or any(len(o['op']) > 1 and o['op'][1] == rk for o in ops)
                     if touched:
                         ops.append({'thread': h['thread'], 'op': ('remove_if', rk, rv), 'result': ANY, 'inv_step': h['inv_step'], 'res_step': h['res_step']})
                     elif lin_init.get(rk) == rv:
